@@ -637,17 +637,45 @@ def run(ck, facts):
                   "conversion arms that unwrap the allocator are now %s (triaged: DiplomatOption, Slice, Struct)" % sorted(consumers), C.loc(conv))
         prod = None
         scrut_ok = False
+        # what generate_method hands to the converter's allocator parameter: `if matches!(param.ty, P..) { Some(..) } else { None }` or `match param.ty { P.. => Some(..), _ => None }`
+        import flow as _fl
+        a_idx = next((i_ for i_, t_ in enumerate(conv.get("inputs") or []) if re.fullmatch(r"core::option::Option<&('\w+ )?str>", t_)), None)
+        gm_defs = dict(_fl.defs_of(gm))
         for n in C.walk(C.fn_body(gm)):
-            if n.get("k") == "letst" and isinstance(n.get("pat"), dict) and n["pat"].get("n") == "alloc" and n.get("init"):
-                iff = C.strip(n["init"])
-                if iff.get("k") != "if":
-                    continue
-                mm = next((x for x in C.walk(iff["c"]) if x.get("k") == "match"), None)
-                yields_some = any((x.get("ctor") or x.get("p") or "").endswith("Option::Some") for x in C.walk(iff["t"]))
-                if mm and yields_some:
-                    sc = C.strip(mm.get("s") or mm.get("e") or {})
-                    scrut_ok = sc.get("k") == "field" and sc.get("n") == "ty"
-                    prod = sorted({v.variant for v, hits in C.decision_table(mm, adts, "diplomat_core::hir::types::Type") if hits and hits[0][0] == 0 and v.variant})
+            if not (n.get("k") in ("call", "mcall") and C.norm_path(n.get("p") or C.callee(n) or "") == C.norm_path(conv["path"]) and a_idx is not None):
+                continue
+            args = ([n["recv"]] + list(n.get("a") or [])) if n.get("k") == "mcall" else list(n.get("a") or [])
+            if a_idx >= len(args):
+                continue
+            e_ = C.strip(args[a_idx])
+            for _ in range(4):
+                if e_.get("k") == "local" and gm_defs.get(e_.get("id"), (None,))[0] == "expr":
+                    e_ = C.strip(gm_defs[e_["id"]][1])
+                elif e_.get("k") == "mcall" and e_.get("m") in ("as_deref", "as_ref", "clone", "copied") and not e_.get("a"):
+                    e_ = C.strip(e_["recv"])
+                else:
+                    break
+            mm = None
+            if e_.get("k") == "if":
+                mm = C.iflet_as_match(e_) or next((x for x in C.walk(e_["c"]) if x.get("k") == "match"), None)
+                some_arms = None
+                if mm is not None and not mm.get("synthetic"):
+                    # a bare `matches!` in the condition: arms yield true/false, the `if` maps true to its then-branch
+                    yields_some = any((x.get("ctor") or x.get("p") or "").endswith("Option::Some") for x in C.walk(e_["t"]))
+                    some_arms = {i_ for i_, a_ in enumerate(mm["arms"]) if C.strip(a_["b"]).get("v") is True} if yields_some else set()
+            elif e_.get("k") == "match":
+                mm = e_
+                some_arms = None
+            if mm is None:
+                continue
+            if some_arms is None:
+                some_arms = {i_ for i_, a_ in enumerate(mm["arms"]) if any((x.get("ctor") or x.get("p") or "").endswith("Option::Some") for x in C.walk(a_["b"]))}
+            sc = C.strip(mm.get("s") or {})
+            while sc.get("k") in ("addr", "un") and isinstance(sc.get("e"), dict):
+                sc = C.strip(sc["e"])
+            scrut_ok = sc.get("k") == "field" and sc.get("n") == "ty"
+            prod = sorted({v.variant for v, hits in C.decision_table(dict(mm, sadt="diplomat_core::hir::types::Type"), adts, "diplomat_core::hir::types::Type")
+                           if hits and hits[0][0] in some_arms and v.variant})
         need = sorted(consumers - {"Slice"})
         ck.expect(prod is not None and scrut_ok and set(need) <= set(prod), "R5", "js::generate_method/allocator-producers", "allocator for %s (param.ty itself)" % prod,
                   "generate_method supplies an allocator for %s of %s, but the conversion unwraps one for %s: an accepted parameter (e.g. Option<u8> under js.abi = \"spec\") reaches "
